@@ -89,16 +89,14 @@ func parseGoToken(tok string) (nv, extra int, seed int64, weights []uint64, err 
 
 // resetOp renders the reset line for a freshly created node (genesis state).
 func resetOp(n *node.Node, c caseCfg) string {
-	var vals, gens []string
+	// the genesis answer of the application: every entry with its weight (0 = standby); the model converts it itself (`app`)
+	var app []string
 	for _, v := range n.Validators[:c.nv] {
-		if v.Weight > 0 {
-			vals = append(vals, fmt.Sprintf("%s:%d", corr.Hex(v.Address), v.Weight))
-		}
-		gens = append(gens, corr.Hex(v.Address))
+		app = append(app, fmt.Sprintf("%s:%d", corr.Hex(v.Address), v.Weight))
 	}
 	return fmt.Sprintf("reset %d %d %d %d %d %s %s %d %d %s %s %s", n.Cfg.BatchSize, n.Cfg.GenesisTimestamp, n.Cfg.BlockTime,
 		c.now, maxTxLen, b01(acBoundEnforced), corr.Hex(n.Genesis.Header.ID), n.Cfg.PrecommitThreshold, n.Cfg.CertificateThreshold,
-		strings.Join(vals, ","), strings.Join(gens, ","), c.goToken())
+		strings.Join(app, ","), "app", c.goToken())
 }
 
 func newPlanner(rng *rand.Rand, c caseCfg) (*planner, error) {
@@ -108,7 +106,7 @@ func newPlanner(rng *rand.Rand, c caseCfg) (*planner, error) {
 	}
 	n.ABI.LogCalls = false
 	p := &planner{rng: rng, n: n, cfg: c, nonce: 1000}
-	p.w = &world{n: n, gens: []genList{{from: 1, vals: append([]*node.Validator{}, n.Validators[:c.nv]...)}}}
+	p.w = &world{n: n, gens: []genList{genesisList(n, c.nv, c.weights)}}
 	p.ops = append(p.ops, resetOp(n, c))
 	return p, nil
 }
@@ -257,15 +255,13 @@ func (p *planner) randomOpts() node.BlockOpts {
 	return o
 }
 
-// currentSet returns the key holders and weights of the parameters valid for the next block.
+// currentSet returns the key holders and weights of the APPLICATION's list valid for the next block.
 func (p *planner) currentSet() ([]*node.Validator, map[int]uint64) {
 	gens := p.w.gensAt(p.n.Height() + 1)
 	weights := map[int]uint64{}
-	if params, err := p.n.BFTParams(p.n.Height() + 1); err == nil {
-		for _, v := range params.Validators() {
-			if kh := p.n.ValidatorByAddress(v.Address()); kh != nil {
-				weights[kh.Index] = v.BFTWeight()
-			}
+	if g := p.w.listAt(p.n.Height() + 1); g != nil {
+		for i, v := range g.vals {
+			weights[v.Index] = g.weightOf(i)
 		}
 	}
 	return gens, weights
@@ -282,7 +278,56 @@ func (p *planner) randomChange() *node.ValidatorChange {
 		nw[v.Index] = weights[v.Index]
 		in[v.Index] = true
 	}
-	switch r.Intn(3) {
+	nCases := 3
+	hasStandby := false
+	for _, wt := range nw {
+		hasStandby = hasStandby || wt == 0
+	}
+	if hasStandby {
+		nCases = 7 // standby validators come and go in the histories that start with some (profile "standby"); the others keep their shape
+	}
+	switch r.Intn(nCases) {
+	case 3: // a voting validator becomes a standby validator (keeps its slot, stops voting)
+		var voting []*node.Validator
+		for _, v := range next {
+			if nw[v.Index] > 0 {
+				voting = append(voting, v)
+			}
+		}
+		if len(voting) < 2 {
+			return nil
+		}
+		nw[voting[r.Intn(len(voting))].Index] = 0
+	case 4: // a key holder outside the set joins as standby validator at a random position
+		var out []*node.Validator
+		for _, v := range p.n.Validators {
+			if !in[v.Index] {
+				out = append(out, v)
+			}
+		}
+		if len(out) == 0 {
+			return nil
+		}
+		nv := out[r.Intn(len(out))]
+		i := r.Intn(len(next) + 1)
+		next = append(next[:i], append([]*node.Validator{nv}, next[i:]...)...)
+		nw[nv.Index] = 0
+	case 5: // a standby validator starts voting
+		var sb []*node.Validator
+		for _, v := range next {
+			if nw[v.Index] == 0 {
+				sb = append(sb, v)
+			}
+		}
+		if len(sb) == 0 {
+			return nil
+		}
+		nw[sb[r.Intn(len(sb))].Index] = uint64(1 + r.Intn(2))
+	case 6: // the order of the list changes (shuffle): the slots move, the BFT parameters stay
+		if len(next) < 2 {
+			return nil
+		}
+		r.Shuffle(len(next), func(a, b int) { next[a], next[b] = next[b], next[a] })
 	case 0: // replace one validator by a key holder outside the set
 		var out []*node.Validator
 		for _, v := range p.n.Validators {
@@ -316,7 +361,13 @@ func (p *planner) randomChange() *node.ValidatorChange {
 		lv = append(lv, v.Labi(nw[v.Index]))
 		total += nw[v.Index]
 	}
-	if total == 0 {
+	voting := 0
+	for _, v := range lv {
+		if v.BFTWeight > 0 {
+			voting++
+		}
+	}
+	if total == 0 || voting > p.n.Cfg.BatchSize {
 		return nil
 	}
 	return &node.ValidatorChange{Validators: lv, PrecommitThreshold: node.DefaultThreshold(total), CertificateThreshold: node.DefaultThreshold(total)}
@@ -333,13 +384,7 @@ func (p *planner) applyBlock(label string, vc *node.ValidatorChange, b *blockcha
 		return fmt.Errorf("honest block at height %d not applied: %v", b.Header.Height, r.Err)
 	}
 	if vc != nil && (len(vc.Validators) != 0 || vc.PrecommitThreshold != 0 || vc.CertificateThreshold != 0) {
-		var vals []*node.Validator
-		for _, v := range vc.Validators {
-			if kh := p.n.ValidatorByAddress(v.Address); kh != nil {
-				vals = append(vals, kh)
-			}
-		}
-		p.w.gens = append(p.w.gens, genList{from: b.Header.Height + 1, vals: vals})
+		p.w.gens = append(p.w.gens, listOfChange(p.n, b.Header.Height+1, vc.Validators))
 	}
 	return nil
 }
@@ -410,6 +455,15 @@ func uncoveredHeaderFields() []string {
 	return res
 }
 
+// baseOpts: the options that rebuild b0 itself (slot, generator and maxHeightGenerated made explicit).
+func (p *planner) baseOpts(o node.BlockOpts, b0 *blockchain.Block) node.BlockOpts {
+	base := o
+	base.SlotsAhead = int(p.w.slotOf(b0.Header.Timestamp) - p.w.slotOf(p.n.Tip().Header.Timestamp))
+	base.Generator = p.n.ValidatorByAddress(b0.Header.GeneratorAddress)
+	base.MaxHeightGenerated = node.U32(b0.Header.MaxHeightGenerated)
+	return base
+}
+
 // mutants builds every single alteration of the valid successor (o, b0) on the current tip.
 func (p *planner) mutants(o node.BlockOpts, b0 *blockchain.Block, heavy bool) []mutant {
 	n, r := p.n, p.rng
@@ -417,10 +471,7 @@ func (p *planner) mutants(o node.BlockOpts, b0 *blockchain.Block, heavy bool) []
 	tip := n.Tip().Header
 	gen := n.ValidatorByAddress(b0.Header.GeneratorAddress)
 	slots := int(p.w.slotOf(b0.Header.Timestamp) - p.w.slotOf(tip.Timestamp))
-	base := o
-	base.SlotsAhead = slots
-	base.Generator = gen
-	base.MaxHeightGenerated = node.U32(b0.Header.MaxHeightGenerated)
+	base := p.baseOpts(o, b0)
 	add := func(label, expect string, b *blockchain.Block) {
 		if b != nil {
 			res = append(res, mutant{label: label, expect: expect, b: b, vc: base.ValidatorChange})
@@ -519,6 +570,8 @@ func (p *planner) mutants(o node.BlockOpts, b0 *blockchain.Block, heavy bool) []
 		// address of another validator, still signed by the slot's generator
 		signed("generator-address-other", expReject, func(b *blockchain.Block) { b.Header.GeneratorAddress = append([]byte{}, other.Address...) })
 	}
+	// the block of the owner of the slot according to a differently derived list / of a standby validator (applist.go)
+	res = append(res, p.ownerMutants(base, b0)...)
 	signed("generator-19-bytes", expReject, func(b *blockchain.Block) { b.Header.GeneratorAddress = b.Header.GeneratorAddress[:19] })
 	signed("generator-21-bytes", expReject, func(b *blockchain.Block) {
 		b.Header.GeneratorAddress = append(append([]byte{}, b.Header.GeneratorAddress...), 0)
@@ -886,12 +939,22 @@ func planCase(rng *rand.Rand, c caseCfg, blocks int, probeEvery int) ([]string, 
 	probes := 0
 	for i := 0; i < blocks; i++ {
 		o := p.randomOpts()
-		b0, err := p.n.BuildBlock(o)
+		b0, err := p.buildHonest(&o)
 		if err != nil {
 			return p.ops, fmt.Errorf("build: %w", err)
 		}
 		label, vc, next := "base", o.ValidatorChange, b0
-		if probeEvery > 0 && (rng.Intn(probeEvery) == 0 || i == blocks-1) {
+		probe := probeEvery > 0 && (rng.Intn(probeEvery) == 0 || i == blocks-1)
+		if !probe && probeEvery > 0 && (rng.Intn(2) == 0 || p.w.hasStandby(p.n.Height()+1)) {
+			// between the probes: who may generate in this slot (a few candidates, all refused) - at every
+			// block while the application's list has standby validators, at every other block otherwise
+			for _, m := range p.ownerMutants(p.baseOpts(o, b0), b0) {
+				if m.expect == expReject {
+					p.emit("cand", m.label, m.expect, p.viaOf(m.b), m.b, false)
+				}
+			}
+		}
+		if probe {
 			probes++
 			var harmless []mutant
 			for _, m := range p.mutants(o, b0, probes%3 == 1) {
